@@ -44,6 +44,18 @@ def rule_i1(ctx):
         ok_valid = has_fact(fs, "graph.tree_is_valid(new_tree)")
         ok_keep = any(f_.positive and f_.text.replace("\n", " ") == "all((new_tree.find_node(node.id) is not None for _, node in in_tree.paths()))" for f_ in fs)
         ok_contains = has_fact(fs, "new_tree.find_node(tree) is None", False) or any(f_.text == "new_tree.find_node(tree) is None" and not f_.positive for f_ in fs)
+        # ... or through a local: tree_path = new_tree.find_node(tree); `tree_path is not None`
+        tp = [a for a in walk_local(atr) if isinstance(a, ast.Assign) and src(a.targets[0]) == "tree_path" and src(a.value) == "new_tree.find_node(tree)"]
+        if tp:
+            ok_contains = ok_contains or has_fact(fs, "tree_path is None", False)
+        # the inserted tree must be contained AS IT IS (only its open leaves may have been expanded): context addition re-inserts displaced subtrees and
+        # could otherwise re-expand a closed node of the inserted tree (the node keeps the inserted tree's id, so the id test alone is satisfied)
+        intact_texts = ("tree.is_prefix(new_tree.get_subtree(tree_path))", "tree.is_prefix(new_tree.get_subtree(new_tree.find_node(tree)))",
+                        "new_tree.get_subtree(tree_path).structurally_equal(tree)")
+        ok_intact = any(f_.positive and " ".join(f_.text.split()) in intact_texts for f_ in fs)
+        ctx.check(ok_intact, "I1-result-gate", c, "append dominated by 'the inserted tree is contained unchanged (as a prefix)'", site(w),
+                  "a result is accepted when a node with the inserted tree's id exists, whatever is below it: context addition can re-expand a closed (epsilon) node of the inserted tree - "
+                  "inserting '{}' into '{}' for <s> ::= '{' <ss> '}', <ss> ::= '' | <s><ss> yields '{{}<ss>}' whose outer <s> carries the inserted tree's id", "dominated by tree.is_prefix(<subtree found>)")
         ctx.check(ok_valid, "I1-result-gate", c, "append dominated by graph.tree_is_valid(new_tree)", site(w), "an inserted tree is accepted without the validity check", "dominated")
         ctx.check(ok_keep, "I1-result-gate", c, "append dominated by 'every node of in_tree is still present'", site(w),
                   "an inserted tree is accepted without checking that all original nodes (by id, over in_tree.paths()) are retained", "dominated")
